@@ -1,8 +1,10 @@
 (* Proofs for C14 / C15 (Model/Epoll.v).
    Method: every connection is, at all times, in one of nine "modes" (M0 .. M8) that determine all its
    control fields; the modes form the life cycle
-     M1 idle -> M2 queued -> M3 running -> (M1 | M4 deleted -> M5 dropped -> M6 closed -> M7 stale -> M8 freed)
-   and M0 (EPOLL_CTL_ADD failed) is isolated.  The invariant [cinv] is indexed by the number of LFree /
+     M1 idle -> M2 queued -> M3 running -> (M1 | M4 deleted -> M5 dropped -> M6 closed stored -> M7 in the graveyard -> M8 freed)
+   and M0 (EPOLL_CTL_ADD failed) is isolated.  (M6: the job's last phase JStored; M7: no job any more, the record waits for
+   the loop; a stale event for the connection may still sit in the loop's batch in M4 .. M7, and the loop frees only when it
+   has looked at every event of its batch.)  The invariant [cinv] is indexed by the number of LFree /
    LStreamDrop labels for the connection in the trace so far (ghost counters), which are functions of the mode. *)
 From KV Require Import Lib.Bytes Model.Epoll.
 
@@ -83,29 +85,28 @@ Definition m_reg (m : mode) : bool := match m with M1 | M2 | M3 => true | _ => f
 Definition m_infl (m : mode) : bool := match m with M0 | M1 => false | _ => true end.
 Definition m_closed (m : mode) : bool := match m with M6 | M7 | M8 => true | _ => false end.
 Definition m_jobs (m : mode) : list jphase :=
-  match m with M2 => [JQueued] | M3 => [JRunning] | M4 => [JDeleted] | M5 => [JDropped] | _ => [] end.
-Definition m_stale (m : mode) : bool := match m with M7 => true | _ => false end.
-Definition m_inb_ok (m : mode) : bool := match m with M0 | M7 | M8 => false | _ => true end.
+  match m with M2 => [JQueued] | M3 => [JRunning] | M4 => [JDeleted] | M5 => [JDropped] | M6 => [JStored] | _ => [] end.
+Definition m_grave (m : mode) : bool := match m with M7 => true | _ => false end.
+Definition m_inb_ok (m : mode) : bool := match m with M0 | M8 => false | _ => true end.
 Definition m_nfree (m : mode) : nat := match m with M8 => 1 | _ => 0 end.
 Definition m_ndrop (m : mode) : nat := match m with M5 | M6 | M7 | M8 => 1 | _ => 0 end.
 
 Definition mk (m : mode) (pend : nat) (peer inb : bool) (ans : nat) : conn :=
   {| k_rec := m_rec m; k_stream := m_stream m; k_registered := m_reg m; k_in_flight := m_infl m;
      k_closed := m_closed m; k_pending := pend; k_peer_closed := peer; k_jobs := m_jobs m;
-     k_in_batch := inb; k_stale := m_stale m; k_answered := ans; k_taken := seq 0 ans |}.
+     k_in_batch := inb; k_grave := m_grave m; k_answered := ans; k_taken := seq 0 ans |}.
 
 Inductive cinv (lp : elstate) : nat -> nat -> conn -> Prop :=
 | CI : forall m pend peer inb ans,
     (inb = true -> lp = EBatch /\ m_inb_ok m = true) ->
-    (m = M7 -> lp = EBatch) ->
     cinv lp (m_nfree m) (m_ndrop m) (mk m pend peer inb ans).
 
 Lemma cinv_intro : forall lp nf nd k m pend peer inb ans,
   k = mk m pend peer inb ans -> nf = m_nfree m -> nd = m_ndrop m ->
-  (inb = true -> lp = EBatch /\ m_inb_ok m = true) -> (m = M7 -> lp = EBatch) ->
+  (inb = true -> lp = EBatch /\ m_inb_ok m = true) ->
   cinv lp nf nd k.
 Proof.
-  intros lp nf nd k m pend peer inb ans Hk Hnf Hnd Hinb H7. subst k nf nd.
+  intros lp nf nd k m pend peer inb ans Hk Hnf Hnd Hinb. subst k nf nd.
   apply CI; assumption.
 Qed.
 
@@ -135,7 +136,7 @@ Lemma with_conn_pres : forall tr s l c0 f s',
   sinv tr s ->
   with_conn s c0 f = Some s' ->
   (forall c, c <> c0 -> isfree c l = false /\ isdrop c l = false) ->
-  (forall k k' nf nd, cinv (e_loop s) nf nd k -> f k = Some k' ->
+  (forall k k' nf nd, nth_error (e_conns s) c0 = Some k -> cinv (e_loop s) nf nd k -> f k = Some k' ->
      cinv (e_loop s) (nf + bn (isfree c0 l)) (nd + bn (isdrop c0 l)) k') ->
   sinv (tr ++ [l]) s'.
 Proof.
@@ -164,14 +165,13 @@ Proof. intros c c0 Hne. simpl. apply Nat.eqb_neq. exact Hne. Qed.
 (* ------------------------------------------------------------------------------------------ *)
 (* per-connection preservation, one lemma per label                                             *)
 
-Ltac inv_cinv H m pend peer inb ans Hinb H7 :=
-  inversion H as [m pend peer inb ans Hinb H7]; subst; clear H.
+Ltac inv_cinv H m pend peer inb ans Hinb :=
+  inversion H as [m pend peer inb ans Hinb]; subst; clear H.
 
 (* close a goal [cinv lp nf nd k] for a concrete k by exhibiting the mode *)
 Ltac close_with m' pe pr ib an :=
   apply (cinv_intro _ _ _ _ m' pe pr ib an);
   [ reflexivity | reflexivity | reflexivity
-  | let Hx := fresh "Hx" in intro Hx; first [ discriminate Hx | auto ]
   | let Hx := fresh "Hx" in intro Hx; first [ discriminate Hx | auto ] ].
 
 Lemma pres_send : forall lp nf nd k k',
@@ -179,11 +179,11 @@ Lemma pres_send : forall lp nf nd k k',
   (if k_peer_closed k then None else
      Some {| k_rec := k_rec k; k_stream := k_stream k; k_registered := k_registered k; k_in_flight := k_in_flight k;
              k_closed := k_closed k; k_pending := S (k_pending k); k_peer_closed := false; k_jobs := k_jobs k;
-             k_in_batch := k_in_batch k; k_stale := k_stale k; k_answered := k_answered k; k_taken := k_taken k |}) = Some k' ->
+             k_in_batch := k_in_batch k; k_grave := k_grave k; k_answered := k_answered k; k_taken := k_taken k |}) = Some k' ->
   cinv lp (nf + 0) (nd + 0) k'.
 Proof.
   intros lp nf nd k k' Hc Hf. rewrite !Nat.add_0_r.
-  inv_cinv Hc m pend peer inb ans Hinb H7. simpl in Hf.
+  inv_cinv Hc m pend peer inb ans Hinb. simpl in Hf.
   destruct peer; [discriminate Hf|]. inversion Hf; subst k'; clear Hf.
   apply (CI lp m (S pend) false inb ans); assumption.
 Qed.
@@ -192,11 +192,11 @@ Lemma pres_close : forall lp nf nd k k',
   cinv lp nf nd k ->
   Some {| k_rec := k_rec k; k_stream := k_stream k; k_registered := k_registered k; k_in_flight := k_in_flight k;
           k_closed := k_closed k; k_pending := k_pending k; k_peer_closed := true; k_jobs := k_jobs k;
-          k_in_batch := k_in_batch k; k_stale := k_stale k; k_answered := k_answered k; k_taken := k_taken k |} = Some k' ->
+          k_in_batch := k_in_batch k; k_grave := k_grave k; k_answered := k_answered k; k_taken := k_taken k |} = Some k' ->
   cinv lp (nf + 0) (nd + 0) k'.
 Proof.
   intros lp nf nd k k' Hc Hf. rewrite !Nat.add_0_r.
-  inv_cinv Hc m pend peer inb ans Hinb H7. simpl in Hf.
+  inv_cinv Hc m pend peer inb ans Hinb. simpl in Hf.
   inversion Hf; subst k'; clear Hf.
   apply (CI lp m pend true inb ans); assumption.
 Qed.
@@ -211,13 +211,13 @@ Lemma pres_event : forall o nf nd k k',
              k_closed := k_closed k; k_pending := k_pending k; k_peer_closed := k_peer_closed k;
              k_jobs := match actual with ODispatched => k_jobs k ++ [JQueued] | _ => k_jobs k end;
              k_in_batch := false;
-             k_stale := match actual with OStale => true | _ => k_stale k end;
+             k_grave := k_grave k;
              k_answered := k_answered k; k_taken := k_taken k |}
    else None) = Some k' ->
   cinv EBatch (nf + 0) (nd + 0) k'.
 Proof.
   intros o nf nd k k' Hc Hf. rewrite !Nat.add_0_r.
-  inv_cinv Hc m pend peer inb ans Hinb H7.
+  inv_cinv Hc m pend peer inb ans Hinb.
   destruct inb; [|discriminate Hf].
   destruct (Hinb eq_refl) as [_ Hok].
   destruct m; try discriminate Hok; destruct o; try discriminate Hf;
@@ -227,25 +227,24 @@ Proof.
   - close_with M3 pend peer false ans.
   - close_with M4 pend peer false ans.
   - close_with M5 pend peer false ans.
+  - close_with M6 pend peer false ans.
   - close_with M7 pend peer false ans.
 Qed.
 
 Lemma pres_free : forall nf nd k k',
-  cinv EBatch nf nd k ->
-  (if k_stale k then
+  cinv EBatch nf nd k -> k_in_batch k = false ->
+  (if k_grave k then
      Some {| k_rec := AFreed; k_stream := k_stream k; k_registered := k_registered k; k_in_flight := k_in_flight k;
              k_closed := k_closed k; k_pending := k_pending k; k_peer_closed := k_peer_closed k; k_jobs := k_jobs k;
-             k_in_batch := k_in_batch k; k_stale := false; k_answered := k_answered k; k_taken := k_taken k |}
+             k_in_batch := k_in_batch k; k_grave := false; k_answered := k_answered k; k_taken := k_taken k |}
    else None) = Some k' ->
   cinv EBatch (nf + 1) (nd + 0) k'.
 Proof.
-  intros nf nd k k' Hc Hf. rewrite !Nat.add_0_r.
-  inv_cinv Hc m pend peer inb ans Hinb H7.
+  intros nf nd k k' Hc Hb Hf. rewrite !Nat.add_0_r.
+  inv_cinv Hc m pend peer inb ans Hinb. simpl in Hb. subst inb.
   destruct m; try discriminate Hf.
   simpl in Hf. inversion Hf; subst k'; clear Hf.
-  destruct inb.
-  - destruct (Hinb eq_refl) as [_ Hok]. discriminate Hok.
-  - close_with M8 pend peer false ans.
+  close_with M8 pend peer false ans.
 Qed.
 
 Lemma pres_jobstart : forall lp nf nd k k',
@@ -255,7 +254,7 @@ Lemma pres_jobstart : forall lp nf nd k k',
       Some (match k_pending k with
             | S p => {| k_rec := k_rec k; k_stream := k_stream k; k_registered := k_registered k; k_in_flight := k_in_flight k;
                         k_closed := k_closed k; k_pending := p; k_peer_closed := k_peer_closed k; k_jobs := js;
-                        k_in_batch := k_in_batch k; k_stale := k_stale k; k_answered := S (k_answered k);
+                        k_in_batch := k_in_batch k; k_grave := k_grave k; k_answered := S (k_answered k);
                         k_taken := k_taken k ++ [k_answered k] |}
             | O => upd_jobs k js
             end)
@@ -264,7 +263,7 @@ Lemma pres_jobstart : forall lp nf nd k k',
   cinv lp (nf + 0) (nd + 0) k'.
 Proof.
   intros lp nf nd k k' Hc Hf. rewrite !Nat.add_0_r.
-  inv_cinv Hc m pend peer inb ans Hinb H7.
+  inv_cinv Hc m pend peer inb ans Hinb.
   destruct m; try discriminate Hf.
   simpl in Hf. destruct pend as [|p]; inversion Hf; subst k'; clear Hf.
   - unfold upd_jobs; simpl. close_with M3 0 peer inb ans.
@@ -278,13 +277,13 @@ Lemma pres_rearm : forall lp nf nd k k',
   | Some js =>
       Some {| k_rec := k_rec k; k_stream := k_stream k; k_registered := k_registered k; k_in_flight := false;
               k_closed := k_closed k; k_pending := k_pending k; k_peer_closed := k_peer_closed k; k_jobs := js;
-              k_in_batch := k_in_batch k; k_stale := k_stale k; k_answered := k_answered k; k_taken := k_taken k |}
+              k_in_batch := k_in_batch k; k_grave := k_grave k; k_answered := k_answered k; k_taken := k_taken k |}
   | None => None
   end = Some k' ->
   cinv lp (nf + 0) (nd + 0) k'.
 Proof.
   intros lp nf nd k k' Hc Hf. rewrite !Nat.add_0_r.
-  inv_cinv Hc m pend peer inb ans Hinb H7.
+  inv_cinv Hc m pend peer inb ans Hinb.
   destruct m; try discriminate Hf.
   simpl in Hf. inversion Hf; subst k'; clear Hf.
   close_with M1 pend peer inb ans.
@@ -296,13 +295,13 @@ Lemma pres_del : forall lp nf nd k k',
   | Some js =>
       Some {| k_rec := k_rec k; k_stream := k_stream k; k_registered := false; k_in_flight := k_in_flight k;
               k_closed := k_closed k; k_pending := k_pending k; k_peer_closed := k_peer_closed k; k_jobs := js;
-              k_in_batch := k_in_batch k; k_stale := k_stale k; k_answered := k_answered k; k_taken := k_taken k |}
+              k_in_batch := k_in_batch k; k_grave := k_grave k; k_answered := k_answered k; k_taken := k_taken k |}
   | None => None
   end = Some k' ->
   cinv lp (nf + 0) (nd + 0) k'.
 Proof.
   intros lp nf nd k k' Hc Hf. rewrite !Nat.add_0_r.
-  inv_cinv Hc m pend peer inb ans Hinb H7.
+  inv_cinv Hc m pend peer inb ans Hinb.
   destruct m; try discriminate Hf.
   simpl in Hf. inversion Hf; subst k'; clear Hf.
   close_with M4 pend peer inb ans.
@@ -314,13 +313,13 @@ Lemma pres_drop : forall lp nf nd k k',
   | Some js =>
       Some {| k_rec := k_rec k; k_stream := false; k_registered := k_registered k; k_in_flight := k_in_flight k;
               k_closed := k_closed k; k_pending := k_pending k; k_peer_closed := k_peer_closed k; k_jobs := js;
-              k_in_batch := k_in_batch k; k_stale := k_stale k; k_answered := k_answered k; k_taken := k_taken k |}
+              k_in_batch := k_in_batch k; k_grave := k_grave k; k_answered := k_answered k; k_taken := k_taken k |}
   | None => None
   end = Some k' ->
   cinv lp (nf + 0) (nd + 1) k'.
 Proof.
   intros lp nf nd k k' Hc Hf. rewrite !Nat.add_0_r.
-  inv_cinv Hc m pend peer inb ans Hinb H7.
+  inv_cinv Hc m pend peer inb ans Hinb.
   destruct m; try discriminate Hf.
   simpl in Hf. inversion Hf; subst k'; clear Hf.
   close_with M5 pend peer inb ans.
@@ -328,20 +327,38 @@ Qed.
 
 Lemma pres_closedstore : forall lp nf nd k k',
   cinv lp nf nd k ->
-  match move_job (k_jobs k) JDropped None with
+  match move_job (k_jobs k) JDropped (Some JStored) with
   | Some js =>
       Some {| k_rec := k_rec k; k_stream := k_stream k; k_registered := k_registered k; k_in_flight := k_in_flight k;
               k_closed := true; k_pending := k_pending k; k_peer_closed := k_peer_closed k; k_jobs := js;
-              k_in_batch := k_in_batch k; k_stale := k_stale k; k_answered := k_answered k; k_taken := k_taken k |}
+              k_in_batch := k_in_batch k; k_grave := k_grave k; k_answered := k_answered k; k_taken := k_taken k |}
   | None => None
   end = Some k' ->
   cinv lp (nf + 0) (nd + 0) k'.
 Proof.
   intros lp nf nd k k' Hc Hf. rewrite !Nat.add_0_r.
-  inv_cinv Hc m pend peer inb ans Hinb H7.
+  inv_cinv Hc m pend peer inb ans Hinb.
   destruct m; try discriminate Hf.
   simpl in Hf. inversion Hf; subst k'; clear Hf.
   close_with M6 pend peer inb ans.
+Qed.
+
+Lemma pres_grave : forall lp nf nd k k',
+  cinv lp nf nd k ->
+  match move_job (k_jobs k) JStored None with
+  | Some js =>
+      Some {| k_rec := k_rec k; k_stream := k_stream k; k_registered := k_registered k; k_in_flight := k_in_flight k;
+              k_closed := k_closed k; k_pending := k_pending k; k_peer_closed := k_peer_closed k; k_jobs := js;
+              k_in_batch := k_in_batch k; k_grave := true; k_answered := k_answered k; k_taken := k_taken k |}
+  | None => None
+  end = Some k' ->
+  cinv lp (nf + 0) (nd + 0) k'.
+Proof.
+  intros lp nf nd k k' Hc Hf. rewrite !Nat.add_0_r.
+  inv_cinv Hc m pend peer inb ans Hinb.
+  destruct m; try discriminate Hf.
+  simpl in Hf. inversion Hf; subst k'; clear Hf.
+  close_with M7 pend peer inb ans.
 Qed.
 
 (* ------------------------------------------------------------------------------------------ *)
@@ -349,10 +366,9 @@ Qed.
 
 Lemma cinv_to_batch : forall nf nd k, cinv EWaiting nf nd k -> cinv EBatch nf nd k.
 Proof.
-  intros nf nd k Hc. inv_cinv Hc m pend peer inb ans Hinb H7.
+  intros nf nd k Hc. inv_cinv Hc m pend peer inb ans Hinb.
   apply CI.
-  - intro Hx. destruct (Hinb Hx) as [Hl _]. discriminate Hl.
-  - intros _. reflexivity.
+  intro Hx. destruct (Hinb Hx) as [Hl _]. discriminate Hl.
 Qed.
 
 Lemma cinv_enter_batch : forall nf nd k,
@@ -360,9 +376,9 @@ Lemma cinv_enter_batch : forall nf nd k,
   cinv EBatch nf nd
     {| k_rec := k_rec k; k_stream := k_stream k; k_registered := k_registered k; k_in_flight := k_in_flight k;
        k_closed := k_closed k; k_pending := k_pending k; k_peer_closed := k_peer_closed k; k_jobs := k_jobs k;
-       k_in_batch := true; k_stale := k_stale k; k_answered := k_answered k; k_taken := k_taken k |}.
+       k_in_batch := true; k_grave := k_grave k; k_answered := k_answered k; k_taken := k_taken k |}.
 Proof.
-  intros nf nd k Hc Hr. inv_cinv Hc m pend peer inb ans Hinb H7.
+  intros nf nd k Hc Hr. inv_cinv Hc m pend peer inb ans Hinb.
   unfold ready in Hr. apply andb_true_iff in Hr. destruct Hr as [Hreg _].
   simpl in Hreg.
   destruct m; try discriminate Hreg; simpl.
@@ -372,13 +388,12 @@ Proof.
 Qed.
 
 Lemma cinv_leave_batch : forall nf nd k,
-  cinv EBatch nf nd k -> k_in_batch k = false -> k_stale k = false -> cinv EWaiting nf nd k.
+  cinv EBatch nf nd k -> k_in_batch k = false -> cinv EWaiting nf nd k.
 Proof.
-  intros nf nd k Hc Hb Hs. inv_cinv Hc m pend peer inb ans Hinb H7.
-  simpl in Hb, Hs. subst inb.
+  intros nf nd k Hc Hb. inv_cinv Hc m pend peer inb ans Hinb.
+  simpl in Hb. subst inb.
   apply CI.
-  - intro Hx. discriminate Hx.
-  - intro Hm. subst m. discriminate Hs.
+  intro Hx. discriminate Hx.
 Qed.
 
 (* ------------------------------------------------------------------------------------------ *)
@@ -387,7 +402,7 @@ Qed.
 Lemma step_pres : forall tr s l s', sinv tr s -> step s l = Some s' -> sinv (tr ++ [l]) s'.
 Proof.
   intros tr s l s' Hinv Hstep.
-  destruct l as [ok|c0|c0|batch|c0 o|c0| |c0|c0|c0|c0|c0]; unfold step in Hstep.
+  destruct l as [ok|c0|c0|batch|c0 o|c0| |c0|c0|c0|c0|c0|c0]; unfold step in Hstep.
   - (* LAccept *)
     inversion Hstep; subst s'; clear Hstep.
     intros c. simpl. rewrite !cnt_snoc. simpl. rewrite !Nat.add_0_r.
@@ -404,10 +419,10 @@ Proof.
       * simpl. destruct d; split; reflexivity.
   - (* LClientSend *)
     eapply with_conn_pres; [exact Hinv | exact Hstep | intros c _; split; reflexivity |].
-    intros k k' nf nd Hc Hf. eapply pres_send; eassumption.
+    intros k k' nf nd _ Hc Hf. eapply pres_send; eassumption.
   - (* LClientClose *)
     eapply with_conn_pres; [exact Hinv | exact Hstep | intros c _; split; reflexivity |].
-    intros k k' nf nd Hc Hf. eapply pres_close; eassumption.
+    intros k k' nf nd _ Hc Hf. eapply pres_close; eassumption.
   - (* LWait *)
     destruct (e_loop s) eqn:Hloop; [|discriminate Hstep].
     match type of Hstep with (if ?b then _ else _) = _ => destruct b eqn:Hcond; [|discriminate Hstep] end.
@@ -425,12 +440,17 @@ Proof.
   - (* LEvent *)
     destruct (e_loop s) eqn:Hloop; [discriminate Hstep|].
     eapply with_conn_pres; [exact Hinv | exact Hstep | intros c _; split; reflexivity |].
-    rewrite Hloop. intros k k' nf nd Hc Hf. eapply pres_event; eassumption.
+    rewrite Hloop. intros k k' nf nd _ Hc Hf. eapply pres_event; eassumption.
   - (* LFree *)
     destruct (e_loop s) eqn:Hloop; [discriminate Hstep|].
+    destruct (forallb (fun k => negb (k_in_batch k)) (e_conns s)) eqn:Hall; [|discriminate Hstep].
+    cbn [negb] in Hstep.
     eapply with_conn_pres; [exact Hinv | exact Hstep | |].
     + intros c Hne. split; [apply isfree_neq; exact Hne | reflexivity].
-    + rewrite Hloop, isfree_refl. intros k k' nf nd Hc Hf. eapply pres_free; eassumption.
+    + rewrite Hloop, isfree_refl. intros k k' nf nd Hn Hc Hf.
+      apply nth_error_In in Hn.
+      pose proof (proj1 (forallb_forall _ _) Hall k Hn) as Hb. simpl in Hb. apply negb_true_iff in Hb.
+      eapply pres_free; eassumption.
   - (* LBatchEnd *)
     destruct (e_loop s) eqn:Hloop; [discriminate Hstep|].
     match type of Hstep with (if ?b then _ else _) = _ => destruct b eqn:Hcond; [|discriminate Hstep] end.
@@ -439,26 +459,28 @@ Proof.
     pose proof (Hinv c) as Hc. rewrite Hloop in Hc.
     destruct (nth_error (e_conns s) c) as [k|] eqn:Hn; [|exact Hc].
     apply nth_error_In in Hn.
-    pose proof (proj1 (forallb_forall _ _) Hcond k Hn) as Hk. simpl in Hk.
-    apply andb_true_iff in Hk. destruct Hk as [Hb Hs].
-    apply negb_true_iff in Hb. apply negb_true_iff in Hs.
+    pose proof (proj1 (forallb_forall _ _) Hcond k Hn) as Hb. simpl in Hb.
+    apply negb_true_iff in Hb.
     apply cinv_leave_batch; assumption.
   - (* LJobStart *)
     eapply with_conn_pres; [exact Hinv | exact Hstep | intros c _; split; reflexivity |].
-    intros k k' nf nd Hc Hf. eapply pres_jobstart; eassumption.
+    intros k k' nf nd _ Hc Hf. eapply pres_jobstart; eassumption.
   - (* LRearm *)
     eapply with_conn_pres; [exact Hinv | exact Hstep | intros c _; split; reflexivity |].
-    intros k k' nf nd Hc Hf. eapply pres_rearm; eassumption.
+    intros k k' nf nd _ Hc Hf. eapply pres_rearm; eassumption.
   - (* LDel *)
     eapply with_conn_pres; [exact Hinv | exact Hstep | intros c _; split; reflexivity |].
-    intros k k' nf nd Hc Hf. eapply pres_del; eassumption.
+    intros k k' nf nd _ Hc Hf. eapply pres_del; eassumption.
   - (* LStreamDrop *)
     eapply with_conn_pres; [exact Hinv | exact Hstep | |].
     + intros c Hne. split; [reflexivity | apply isdrop_neq; exact Hne].
-    + rewrite isdrop_refl. intros k k' nf nd Hc Hf. eapply pres_drop; eassumption.
+    + rewrite isdrop_refl. intros k k' nf nd _ Hc Hf. eapply pres_drop; eassumption.
   - (* LClosedStore *)
     eapply with_conn_pres; [exact Hinv | exact Hstep | intros c _; split; reflexivity |].
-    intros k k' nf nd Hc Hf. eapply pres_closedstore; eassumption.
+    intros k k' nf nd _ Hc Hf. eapply pres_closedstore; eassumption.
+  - (* LGrave *)
+    eapply with_conn_pres; [exact Hinv | exact Hstep | intros c _; split; reflexivity |].
+    intros k k' nf nd _ Hc Hf. eapply pres_grave; eassumption.
 Qed.
 
 Lemma run_inv : forall tr s, run ep_init tr = Some s -> sinv tr s.
@@ -484,7 +506,7 @@ Lemma one_worker : forall tr s c k, run ep_init tr = Some s -> nth_error (e_conn
   length (k_jobs k) <= 1 /\ (k_jobs k <> [] -> k_in_flight k = true).
 Proof.
   intros tr s c k Hrun Hn. pose proof (run_cinv tr s c k Hrun Hn) as Hc.
-  inv_cinv Hc m pend peer inb ans Hinb H7.
+  inv_cinv Hc m pend peer inb ans Hinb.
   destruct m; simpl; split; try lia; intro Hne; try reflexivity; exfalso; apply Hne; reflexivity.
 Qed.
 
@@ -492,7 +514,7 @@ Lemma in_order : forall tr s c k, run ep_init tr = Some s -> nth_error (e_conns 
   k_taken k = seq 0 (k_answered k).
 Proof.
   intros tr s c k Hrun Hn. pose proof (run_cinv tr s c k Hrun Hn) as Hc.
-  inv_cinv Hc m pend peer inb ans Hinb H7. reflexivity.
+  inv_cinv Hc m pend peer inb ans Hinb. reflexivity.
 Qed.
 
 Lemma no_lost_wakeup : forall tr s c k, run ep_init tr = Some s -> nth_error (e_conns s) c = Some k ->
@@ -508,7 +530,7 @@ Proof.
               forallb (fun c0 => match nth_error (e_conns s) c0 with Some k0 => ready k0 | None => false end) [c] = true).
     { simpl. rewrite Hn, Hready. reflexivity. }
     rewrite Hcond. eexists. reflexivity. }
-  inv_cinv Hc m pend peer inb ans Hinb H7.
+  inv_cinv Hc m pend peer inb ans Hinb.
   unfold ready in Hready. apply andb_true_iff in Hready. destruct Hready as [Hreg _]. simpl in Hreg.
   destruct m; try discriminate Hreg; simpl.
   - right. split; [reflexivity|]. split; [reflexivity|]. right. exact Hwait.
@@ -531,13 +553,14 @@ Qed.
 Lemma all_steps_safe : forall tr s l s', run ep_init tr = Some s -> step s l = Some s' -> safe s l = true.
 Proof.
   intros tr s l s' Hrun Hstep.
-  destruct l as [ok|c0|c0|batch|c0 o|c0| |c0|c0|c0|c0|c0]; try reflexivity;
+  destruct l as [ok|c0|c0|batch|c0 o|c0| |c0|c0|c0|c0|c0|c0]; try reflexivity;
     unfold step in Hstep;
     try (destruct (e_loop s) eqn:Hloop; [discriminate Hstep|]);
+    try (destruct (forallb (fun k => negb (k_in_batch k)) (e_conns s)) eqn:Hall; [cbn [negb] in Hstep|discriminate Hstep]);
     apply with_conn_inv in Hstep; destruct Hstep as [k [k' [Hn [Hf _]]]];
     pose proof (run_cinv tr s c0 k Hrun Hn) as Hc;
     unfold safe, rec_live, stream_open, conn_of; rewrite Hn;
-    inv_cinv Hc m pend peer inb ans Hinb H7.
+    inv_cinv Hc m pend peer inb ans Hinb.
   - (* LEvent *)
     destruct inb; [|discriminate Hf]. destruct (Hinb eq_refl) as [_ Hok].
     destruct m; try discriminate Hok; reflexivity.
@@ -547,11 +570,12 @@ Proof.
   - (* LDel *) destruct m; try discriminate Hf; reflexivity.
   - (* LStreamDrop *) destruct m; try discriminate Hf; reflexivity.
   - (* LClosedStore *) destruct m; try discriminate Hf; reflexivity.
+  - (* LGrave *) destruct m; try discriminate Hf; reflexivity.
 Qed.
 
 Lemma cinv_counts : forall lp nf nd k, cinv lp nf nd k -> nf <= 1 /\ nd <= 1.
 Proof.
-  intros lp nf nd k Hc. destruct Hc as [m pend peer inb ans Hinb H7].
+  intros lp nf nd k Hc. destruct Hc as [m pend peer inb ans Hinb].
   destruct m; simpl; split; lia.
 Qed.
 
@@ -568,7 +592,7 @@ Lemma freed_is_dead : forall tr s c k, run ep_init tr = Some s -> nth_error (e_c
   k_rec k = AFreed -> k_jobs k = [] /\ k_registered k = false /\ k_stream k = false /\ k_in_batch k = false.
 Proof.
   intros tr s c k Hrun Hn Hfreed. pose proof (run_cinv tr s c k Hrun Hn) as Hc.
-  inv_cinv Hc m pend peer inb ans Hinb H7. simpl in Hfreed.
+  inv_cinv Hc m pend peer inb ans Hinb. simpl in Hfreed.
   assert (Hib : m_inb_ok m = false -> inb = false).
   { intro Hno. destruct inb; [|reflexivity]. destruct (Hinb eq_refl) as [_ Hok]. rewrite Hok in Hno. discriminate Hno. }
   destruct m; try discriminate Hfreed; simpl; repeat split; apply Hib; reflexivity.
@@ -590,6 +614,6 @@ Proof.
   pose proof (proj1 (forallb_forall _ _) Hend k Hin) as Hk. simpl in Hk.
   apply In_nth_error in Hin. destruct Hin as [c Hn].
   pose proof (run_cinv tr s c k Hrun Hn) as Hc.
-  inv_cinv Hc m pend peer inb ans Hinb H7.
+  inv_cinv Hc m pend peer inb ans Hinb.
   destruct m; simpl in Hk; try discriminate Hk; reflexivity.
 Qed.
